@@ -38,6 +38,10 @@ ALLOW_C12 = {
     ],
 }
 
+ALLOW_C05 = {
+    'errors-before-close': [],
+}
+
 ALLOW_C06 = {
     'direct-write': [
         ('error_997', 'error_997_visitor._write', 'the one write primitive of the 997 visitor: under contract (writes the segment once, counts it once)'),
